@@ -60,23 +60,26 @@ func (s *MultipartRequest) UnmarshalBinary(data []byte) error {
 	var req util.Message
 	switch s.Type {
 	case MultipartType_Aggregate:
-		req = s.Body.(*AggregateStatsRequest)
-	case MultipartType_Desc:
-		break
+		req = NewAggregateStatsRequest()
+	case MultipartType_Desc, MultipartType_Table, MultipartType_PortDesc:
+		// The request body is empty.
+		req = new(util.Buffer)
 	case MultipartType_Flow:
-		req = s.Body.(*FlowStatsRequest)
+		req = NewFlowStatsRequest()
 	case MultipartType_Port:
-		req = s.Body.(*PortStatsRequest)
-	case MultipartType_Table:
-		break
+		req = NewPortStatsRequest()
 	case MultipartType_Queue:
-		req = s.Body.(*QueueStatsRequest)
+		req = NewQueueStatsRequest()
 	case MultipartType_Experimenter:
 		break
 	}
 	if req == nil {
 		return fmt.Errorf("unsupported MultipartRequest type: %d", s.Type)
 	}
+	if err = req.UnmarshalBinary(data[n:]); err != nil {
+		return err
+	}
+	s.Body = req
 	return err
 }
 
